@@ -228,7 +228,7 @@ def run(ctx):
                         _compare(ctx, res, r, case, iargv)
         ctx.count("keywords_total", nkw)
         # random subsets
-        nsub = 120 if quick else 3000
+        nsub = 350 if quick else 4000
         for i in range(nsub):
             func = rng.choice(["version", "version", "flow", "flow", "render", "check"])
             sig = inspect.signature(getattr(z, func))
@@ -260,6 +260,27 @@ def run(ctx):
                     ctx.refute("flag-not-accepted-by-cli", "%s(...) emits %r which `zerv %s --help` does not list" % (func, bad, func), case)
             if i < 2:
                 ctx.sample(dict(call="%s(%s)" % (func, ", ".join("%s=%r" % kv for kv in kwargs.items())), argv=record[0][1:] if record else None))
+        # the same call repeated while the repository changes underneath: the wrapper must follow the command line each time
+        for step in range(6 if quick else 30):
+            kwargs = rng.choice([{"repo_path": repo.path}, {"repo_path": repo.path, "output_format": "pep440"}, {"repo_path": repo.path, "output_format": "zerv"}])
+            fn = rng.choice(["version", "flow"])
+            for _ in range(2):
+                res = call(z, fn, None, kwargs)
+                iargv, istdin = assemble(fn, None, kwargs, {})
+                r = core.run_zerv(ctx.bins, iargv, stdin=istdin, env=env)
+                ctx.evaluations += 2
+                ctx.count("repeated_calls_on_changing_repo")
+                _compare(ctx, res, r, dict(kind="changing-repo", func=fn, step=step, ops=list(repo.ops)[-4:]), iargv)
+                k = rng.random()
+                if k < 0.4:
+                    repo.commit()
+                elif k < 0.6:
+                    repo.tag("v%d.%d.%d" % (10 + step, rng.randrange(9), rng.randrange(9)))
+                elif k < 0.8:
+                    repo.make_dirty(rng.choice(["modified", "untracked"]))
+                else:
+                    repo.clean()
+        repo.clean()
         # a failing command raises
         for func, pos, kwargs in (("version", None, {"source": "none"}), ("check", "not a version", {"format": "semver"}), ("render", "1.2", {"input_format": "semver"}),
                                   ("flow", None, {"source": "none", "tag_version": "1.2.3", "hash_branch_len": 0}), ("version", None, {"source": "none", "tag_version": "x.y.z"})):
